@@ -129,3 +129,81 @@ Proof.
   intros B Ev E. eapply (eval_no_panic_x Hnum); [|exact E]. eapply (evals_winv Hnum); [exact Ev|]. exact (boot_with_winv prelude s0 B).
 Qed.
 End Boot.
+
+(* ------------------------------------------------------------------ statements for Props/C06.v *)
+Lemma xsiteb_unfold k : xsiteb k = true <->
+  (k = 11 \/ k = 13 \/ k = 41 \/ k = 42 \/ k = 43 \/ k = 45 \/ k = 46 \/ k = 47 \/ k = 48 \/ k = 49 \/ k = 50 \/ k = 51).
+Proof.
+  unfold xsiteb. rewrite !Bool.orb_true_iff, !N.eqb_eq. tauto.
+Qed.
+
+Theorem step_no_vm_panic (ob : N -> M vcell) :
+  (forall b s, wfm s -> npost okp s (ob b s) vwf) ->
+  forall s, wfm s -> lamcell s (fst (ip s)) -> J s -> finv s ->
+  match run_one ob s with
+  | ROk _ s' => wfm s' /\ lamcell s' (fst (ip s'))
+  | RErr _ _ s' => wfm s' /\ 1 <= snd (ip s') /\ lamcell s' (fst (ip s'))
+  | RPanic k => xsiteb k = false
+  | RNoFuel => True
+  end.
+Proof.
+  intros Hob s W Hl Hj F. pose proof (np_run_one ob Hob s W Hl Hj F) as H.
+  destruct (run_one ob s); cbn [step_post] in H; auto.
+  - destruct H as (H1 & _ & H3). auto.
+  - destruct H as (H1 & _ & H3 & H4). auto.
+Qed.
+
+Theorem stack_trace_no_vm_panic s : wfm s -> 1 <= snd (ip s) -> lamcell s (fst (ip s)) ->
+  match stack_trace s with Ok _ => True | Err _ => False | Panic k => xsiteb k = false | NoFuel => True end.
+Proof. intros W H1 H2. exact (stack_trace_ok s W (conj H1 H2)). Qed.
+
+Theorem builtin_no_vm_panic : num_panics_ok -> forall b s, wfm s ->
+  match other_builtin b s with
+  | ROk v s' => wfm s' /\ vwf s' v
+  | RErr _ _ s' => wfm s'
+  | RPanic k => xsiteb k = false
+  | RNoFuel => True
+  end.
+Proof.
+  intros Hn b s W. pose proof (np_ob Hn b s W) as H. destruct (other_builtin b s); cbn [npost] in H; auto.
+  - destruct H as (H1 & _ & H3). auto.
+  - apply H.
+Qed.
+
+Theorem prepare_eval_no_vm_panic e s : wfm s ->
+  match prepare_eval e s with
+  | ROk _ s' => wfm s' /\ lamcell s' (fst (ip s'))
+  | RErr _ _ s' => wfm s'
+  | RPanic k => xsiteb k = false
+  | RNoFuel => True
+  end.
+Proof.
+  intros W. pose proof (np_prepare_eval e s W) as H. destruct (prepare_eval e s); cbn [npost0] in H; auto.
+  - destruct H as (H1 & _ & H3 & _). auto.
+  - apply H.
+Qed.
+
+Theorem eval_vm_outcome : num_panics_ok -> forall fuel e s, wfm s -> finv s -> J s ->
+  match eval other_builtin fuel e s with
+  | ROk _ s' => wfm s' /\ finv s' /\ J s'
+  | RErr _ _ s' => wfm s' /\ finv s' /\ J s'
+  | RPanic k => xsiteb k = false
+  | RNoFuel => True
+  end.
+Proof.
+  intros Hn fuel e s W F Hj. pose proof (eval_lpost Hn fuel e s (conj W (conj F Hj))) as H1.
+  pose proof (eval_rinv fuel e s (conj F Hj)) as H2.
+  destruct (eval other_builtin fuel e s); cbn [lpost rpost] in *; auto; destruct H2; auto.
+Qed.
+
+Theorem boot_invariant : num_panics_ok -> forall prelude s0 s, boot_with prelude = Some s0 -> evals s0 s ->
+  wfm s /\ finv s /\ J s.
+Proof. intros Hn prelude s0 s B Ev. apply (evals_winv Hn s0 s Ev). exact (boot_with_winv Hn prelude s0 B). Qed.
+
+Theorem eval_no_vm_panic_plain : num_panics_ok -> forall prelude s0 s fuel e k,
+  boot_with prelude = Some s0 -> evals s0 s -> eval other_builtin fuel e s = RPanic k ->
+  k <> 11 /\ k <> 13 /\ k <> 41 /\ k <> 42 /\ k <> 43 /\ k <> 45 /\ k <> 46 /\ k <> 47 /\ k <> 48 /\ k <> 49 /\ k <> 50 /\ k <> 51.
+Proof.
+  intros Hn prelude s0 s fuel e k B Ev E. pose proof (eval_no_vm_panic Hn prelude s0 s fuel e k B Ev E) as H.
+  assert (N : ~ (xsiteb k = true)) by (rewrite H; discriminate). rewrite xsiteb_unfold in N. tauto.
+Qed.
